@@ -225,6 +225,11 @@ def run(ctx):
                               "stale bytes" % c["f"].split("::")[-1], fpb.loc(b))
 
     # ---------------------------------------------------------------- R5 finalisation (A3)
+    ctx.rule("C01.R9", "async writer: the staged block split off the buffer in poll_flush is handed to the sink before any Poll::Pending return "
+                       "(a Pending after the split drops up to 64 KiB of payload; the file stays well-formed)")
+    from .c16 import drained_value_rule
+    drained_value_rule(ctx, "C01.R9", ("noodles_bgzf::r#async::io::writer", "<noodles_bgzf::r#async::io::writer"), 1)
+
     ctx.rule("C01.R5", "A3 must-pass-through: finish/try_finish/Drop/flush/flush_block/write_frame")
     eof_call = R.call_with_const_arg(r"std::io::Write::write_all$|as std::io::Write>::write_all$",
                                      {"noodles_bgzf::io::writer::BGZF_EOF"})
